@@ -103,6 +103,7 @@ type Env struct {
 	lastBase              []int
 	OnRound               func() // called after every completed round
 	curStep               *int
+	perturb               func() // free-running checks: schedule perturbation at event points
 	faultsOff             bool
 	Persisted             int // States[Persisted] is what the lower level holds
 	Rounds                int // completed ok rounds
@@ -204,6 +205,9 @@ func (e *Env) maxTop() int {
 // callbacks
 
 func (e *Env) onEvent(ev moss.Event) {
+	if e.perturb != nil {
+		e.perturb()
+	}
 	switch ev.Kind {
 	case moss.EventKindMergerProgress:
 		e.mGate.Enter("merger")
